@@ -216,6 +216,16 @@ def run(chk: Check) -> None:
             chk.fail("property", {"family": "quote-nesting", "depth": depth, "seconds": dt, "prev_seconds": prev, "doc": "> " * depth + "a"},
                      "time: parse time grows exponentially with quote nesting depth (x4 per 2 levels)", classify)
         prev = dt
+    # one long paragraph at an ordinary and at a huge width: the time must not depend on the width (every word is looked at once)
+    doc = "word " * 50000 + "\n"
+    _, t88, e1 = timed(reformat_text, doc, width=88, semantic=False)
+    _, tbig, e2 = timed(reformat_text, doc, width=1_000_000, semantic=False)
+    chk.count(2)
+    chk.hist("long_paragraph_seconds", f"width88:{t88:.2f} width1e6:{tbig:.2f}")
+    if e1 or e2 or tbig > 10 * t88 + 1.5:
+        nbp += 1
+        chk.fail("property", {"family": "long-paragraph-huge-width", "seconds_width_88": t88, "seconds_width_1e6": tbig, "errors": [e1, e2]},
+                 f"a 250 KB paragraph takes {t88:.2f}s at width 88 and {tbig:.2f}s at width 1000000 ({e1 or e2 or 'time grows with the line length'})", classify)
     # listed findings: very deep nesting raises RecursionError (D-92); time quadratic in the number of atomic constructs of one paragraph (D-91)
     for doc in (">" * 400 + " x\n", "".join("  " * i + "- x\n" for i in range(200))):
         out, dt, err = timed(reformat_text, doc)
